@@ -2,6 +2,7 @@
 #![allow(clippy::all)]
 pub mod engine;
 pub mod io;
+pub mod msg;
 pub mod props;
 pub mod recsign;
 pub mod refimpl;
